@@ -171,3 +171,127 @@ def run(P, rep, tier):
     # delivery order of reconstructed pictures must not depend on when the application frees recon buffers
     recon_eos_atomic(P, rep, 'C27.RECONEOS', 'recon_output')
     rep.floor('C27.RECONEOS', 1)
+
+    run_perpic(P, rep, C)
+
+
+# ---------------- PERPIC: which pool object a picture receives depends on when earlier pictures were released, i.e. on how fast the
+# application submits and retrieves.  The output is independent of that only if an object taken from an empty-object FIFO carries nothing
+# from its previous use into the decisions of the new picture.  Decided here for the constant-valued members (flags, modes) a kernel
+# stores into the object it has just acquired: if a member is assigned constants in that function, it must be assigned on *every* path
+# from the acquisition to the point where the object is handed on (must-assign dataflow, meet = intersection); a member that is only
+# ever set under conditions keeps the value of the previous picture on the other paths.
+def _is_const(x):
+    x = strip(x)
+    while x is not None and x[0] == 'k':
+        x = strip(x[-1])
+    return x is not None and x[0] == 'l'
+
+
+def run_perpic(P, rep, C):
+    ninst = 0
+    for f in P.fns:
+        if f.lib != 'Encoder' or f.nocfg or f not in C.runtime:
+            continue
+        wr = set()
+        for ev, n in f.calls('svt_get_empty_object'):
+            a = strip(ev['e'][2][1]) if len(ev['e'][2]) > 1 else None
+            if a is not None and a[0] == 'u' and a[1] == '&':
+                t = strip(a[2])
+                if t is not None and t[0] == 'v':
+                    wr.add(t[1])
+        if not wr:
+            continue
+        objs = {}
+        for d in f.events(('decl', 'st')):
+            e = d.get('e')
+            if e is None:
+                continue
+            if d['k'] == 'decl':
+                n, rhs = d['n'], strip(e)
+            elif e[0] == 'a' and e[1] == '=' and strip(e[2])[0] == 'v':
+                n, rhs = strip(e[2])[1], strip(e[3])
+            else:
+                continue
+            while rhs is not None and rhs[0] == 'k':
+                rhs = strip(rhs[-1])
+            if rhs is not None and rhs[0] == 'm' and rhs[1].endswith('.object_ptr'):
+                r = root_of(rhs)
+                if r is not None and r[1] in wr:
+                    objs[n] = r[1]
+        if not objs:
+            continue
+        stores = {}
+        carried = {}                         # wrapper -> wrappers of the objects it is stored into
+        for ev in f.events(('st',)):
+            e = ev['e']
+            if e[0] != 'a' or e[1] != '=':
+                continue
+            t = strip(e[2])
+            if t is None or t[0] != 'm' or len(t) < 4:
+                continue
+            base = strip(t[3])
+            if base is None or base[0] != 'v' or base[1] not in objs:
+                continue
+            stores.setdefault((base[1], t[1]), []).append(ev)
+            rv = strip(e[3])
+            while rv is not None and rv[0] == 'k':
+                rv = strip(rv[-1])
+            if rv is not None and rv[0] == 'v' and rv[1] in wr:
+                carried.setdefault(rv[1], set()).add(objs[base[1]])
+        keys = frozenset(stores)
+
+        def transfer(ev, st):
+            e = ev.get('e')
+            if ev['k'] == 'st' and e is not None and e[0] == 'a' and e[1] == '=':
+                t = strip(e[2])
+                if t is not None and t[0] == 'm' and len(t) > 3:
+                    base = strip(t[3])
+                    if base is not None and base[0] == 'v' and (base[1], t[1]) in keys:
+                        return st | {(base[1], t[1])}
+            if ev['k'] in ('decl', 'st') and e is not None:
+                n = ev['n'] if ev['k'] == 'decl' else (strip(e[2])[1] if e[0] == 'a' and strip(e[2])[0] == 'v' else None)
+                if n in objs:
+                    return frozenset(k for k in st if k[0] != n)      # (re)acquisition: nothing assigned yet
+            return st
+        ins, outs = f.forward(keys, transfer, meet=lambda a, b: a & b, top=keys)
+        posts = [ev for ev, n in f.calls('svt_post_full_object')]
+
+        def handovers(w):
+            # the object leaves this function's hands where its wrapper is posted, where the object that carries the wrapper is
+            # posted, or where the wrapper is copied into another variable / member (handed over in a later iteration)
+            ws = {w} | carried.get(w, set())
+            out = [p for p in posts if any(strip(a) is not None and strip(a)[0] == 'v' and strip(a)[1] in ws for a in p['e'][2])]
+            for sv in f.events(('st',)):
+                e2 = sv['e']
+                if e2[0] == 'a' and e2[1] == '=':
+                    rv = strip(e2[3])
+                    while rv is not None and rv[0] == 'k':
+                        rv = strip(rv[-1])
+                    if rv is not None and rv[0] == 'v' and rv[1] == w:
+                        tg = strip(e2[2])
+                        tb = strip(tg[3]) if tg is not None and tg[0] == 'm' and len(tg) > 3 else None
+                        if tg is None or tg[0] != 'v':
+                            continue                 # kept in a member (back-pointer, "previous picture" link): not a hand-over
+                        # a local that is posted, or stored into an object that is posted, in a later iteration
+                        x = tg[1]
+                        posted = any(strip(a) is not None and strip(a)[0] == 'v' and strip(a)[1] == x for p in posts for a in p['e'][2])
+                        stored = any(s2['e'][0] == 'a' and s2['e'][1] == '=' and strip(s2['e'][3]) is not None and strip(s2['e'][3])[0] == 'v' and strip(s2['e'][3])[1] == x and
+                                     strip(s2['e'][2])[0] == 'm' for s2 in f.events(('st',)))
+                        if posted or stored:
+                            out.append(sv)
+            return out
+        for (o, fld), evs in sorted(stores.items()):
+            if not all(_is_const(ev['e'][3]) for ev in evs):
+                continue
+            hp = handovers(objs[o])
+            if not hp:
+                continue
+            ninst += 1
+            bad = [p for p in hp if (o, fld) not in (f.state_at(ins, transfer, p) or keys)]
+            rep.ob('C27.PERPIC', '%s/%s' % (f.name, fld), not bad, f.loc(evs[0]),
+                   ('%s is assigned on every path between the acquisition of the pool object and its hand-over' % fld.split('.')[1]) if not bad else
+                   ('%s takes %s from an empty-object FIFO and only sets %s (to %s) under conditions: on the other paths to the hand-over at line %d the member keeps the value of the picture that used the object before, and which object a picture gets depends on how the application paces its calls' %
+                    (f.name, o, fld.split('.')[1], ', '.join(sorted({pstr(ev['e'][3]) for ev in evs})), bad[0].get('l', 0))))
+    rep.analysed['perpic_members'] = ninst
+    rep.floor('C27.PERPIC', 20)
